@@ -26,8 +26,8 @@ func c12Differs(orig, cand *protocoltypes.Group) bool {
 func TestVerifC12(t *testing.T) {
 	rep := verifkit.NewReport("C12", "c12-invitations-descriptors")
 	defer rep.Finish(t)
-	rep.Rule = "random multi-member invitations: every single-bit flip of the marshalled invitation, removal of each field, substitution of the group type by every other and by unknown values, secret/signature/identifier taken from another group, " +
-		"each decoded and classified (protected part changed or not) and given to MetadataStore.GroupJoin on a real account group; identity used after an honest join; replication descriptors of groups of all types tried against every metadata envelope, " +
+	rep.Rule = "random multi-member invitations: every single-bit flip of the marshalled invitation, removal of each field, substitution of the group type by every other and by unknown values, secret/signature/identifier taken from another group, invitations forged from nothing but the group's public replication descriptor (six recipes), " +
+		"each decoded and classified (protected part changed or not) and given to MetadataStore.GroupJoin on a real account group; identity used after an honest join; replication descriptors of groups of all types (also of full groups that already carry sign_pub / link key) tried against every metadata envelope, " +
 		"message header and payload produced in a session of the full group, searched for the secret, and compared by log address. distinct = (invitation, manipulation) / (group, envelope)"
 	rep.Assume("manipulations that leave identifier, secret, secret signature and group type intact (link key signature, added SignPub/LinkKey, unknown fields) are outside the statement: exercised for no-panic, outcome recorded, not judged")
 	ctx := context.Background()
@@ -79,6 +79,24 @@ func TestVerifC12(t *testing.T) {
 		mod("sig-truncated", func(c *protocoltypes.Group) { c.SecretSig = c.SecretSig[:63] })
 		mod("add-sign-pub", func(c *protocoltypes.Group) { c.SignPub = other.PublicKey })
 		mod("add-link-key", func(c *protocoltypes.Group) { c.LinkKey = other.Secret })
+		// invitations forged by someone who only holds the public replication descriptor of the group (identifier, sign_pub,
+		// link key and its signature): with a secret of his choice, with and without a signature of his own making
+		if desc, err := FilterGroupForReplication(g); err == nil {
+			forge := func(id string, f func(c *protocoltypes.Group)) {
+				c := proto.Clone(desc).(*protocoltypes.Group)
+				c.GroupType = protocoltypes.GroupType_GroupTypeMultiMember
+				f(c)
+				cands = append(cands, cand{"from-descriptor/" + id, c, true})
+			}
+			own := make([]byte, 32)
+			rng.Read(own)
+			forge("as-is", func(c *protocoltypes.Group) {})
+			forge("own-secret-no-sig", func(c *protocoltypes.Group) { c.Secret = own })
+			forge("own-secret-other-sig", func(c *protocoltypes.Group) { c.Secret, c.SecretSig = own, other.SecretSig })
+			forge("own-secret-link-sig-as-sig", func(c *protocoltypes.Group) { c.Secret, c.SecretSig = own, c.LinkKeySig })
+			forge("link-key-as-secret", func(c *protocoltypes.Group) { c.Secret = c.LinkKey })
+			forge("link-key-as-secret-link-sig", func(c *protocoltypes.Group) { c.Secret, c.SecretSig = c.LinkKey, c.LinkKeySig })
+		}
 
 		unprotectedRun := 0
 		for _, c := range cands {
@@ -107,6 +125,9 @@ func TestVerifC12(t *testing.T) {
 			if protected {
 				if jerr == nil {
 					sig := "C12/altered-invitation-accepted/" + classOfForgery(c.id)
+					if classOfForgery(c.id) == "from-descriptor" {
+						sig = "C12/altered-invitation-accepted/" + c.id // one signature per forging recipe
+					}
 					rep.Violate(sig, "an invitation whose identifier, secret, signature or group type was altered was accepted", map[string]interface{}{"manipulation": c.id, "group_type": c.g.GroupType.String()})
 					// leave the group again so that the next candidates are judged on the same state
 					if pk, err := c.g.GetPubKey(); err == nil {
@@ -192,6 +213,18 @@ func TestVerifC12(t *testing.T) {
 	for i := 0; i < verifkit.Pick(2, 8); i++ {
 		g, _, _ := NewGroupMultiMember()
 		sessions = append(sessions, sess{"multimember", g})
+	}
+	// full groups that already carry the optional public fields of a descriptor (an invitation may have them filled in)
+	for i := 0; i < 2; i++ {
+		g, _, _ := NewGroupMultiMember()
+		if d, err := FilterGroupForReplication(g); err == nil {
+			g2 := proto.Clone(g).(*protocoltypes.Group)
+			g2.SignPub = d.SignPub
+			if i == 1 {
+				g2.LinkKey, g2.LinkKeySig = d.LinkKey, d.LinkKeySig
+			}
+			sessions = append(sessions, sess{[]string{"multimember+sign_pub", "multimember+sign_pub+link_key"}[i], g2})
+		}
 	}
 	cg, _ := writer.ss.GetGroupForContact(peerAcc.accountPK())
 	sessions = append(sessions, sess{"contact", cg}, sess{"account", writer.accountGroup()})
